@@ -1,7 +1,7 @@
 #!/bin/sh
 # tools/run_all.sh [tier]: run every claimed check sequentially in /verif against /repo (rewrites evidence/*.json)
-cd /verif
+cd "$(dirname "$0")/.."
 T=${1:-quick}
 for p in C01 C02 C03 C04 C05 C06 C07 C08 C09 C10 C11 C12 C13 C14 C15 C16 C17 C18 C19 C20; do
-  ./check $p --tier $T > /tmp/runall_$p.log 2>&1; echo "$p rc=$? $(tail -1 /tmp/runall_$p.log)"
+  ./check $p --tier $T > ${TMPDIR:-/tmp}/runall_$p.log 2>&1; echo "$p rc=$? $(tail -1 ${TMPDIR:-/tmp}/runall_$p.log)"
 done
